@@ -59,3 +59,16 @@ Theorem C04_ownership_report_sound : forall l (owned used : list N),
   (forall b, stdpp.base.elem_of b used -> stdpp.base.elem_of b owned).
 Proof. exact V.Proofs.AbsOwn.own_errors_nil. Qed.
 Print Assumptions C04_ownership_report_sound.
+
+(* the mapping function as the code has it since fix 7466992 (a failed mapping is undone: the index blocks it
+   had allocated go back, the inode keeps its old root): ownership as above, and nothing at all changes on failure *)
+Theorem C04_mapping_failure_is_undone : forall NB : nat, (0 < NB)%nat -> forall (lvl root off : nat) d (fr : list nat),
+  (off < pw NB lvl)%nat -> NoDup (blocks NB d lvl root ++ fr) -> free_zero d fr -> ~ In 0%nat fr ->
+  let '(blk, root', d', fr') := indbmap_undo NB lvl root off d fr in
+  NoDup (blocks NB d' lvl root' ++ fr') /\
+  Permutation (blocks NB d' lvl root' ++ fr') (blocks NB d lvl root ++ fr) /\
+  free_zero d' fr' /\
+  (forall off', (off' < pw NB lvl)%nat -> off' <> off -> leaf NB d' lvl root' off' = leaf NB d lvl root off') /\
+  (blk = 0%nat -> root' = root /\ d' = d /\ fr' = fr).
+Proof. exact indbmap_undo_ownership. Qed.
+Print Assumptions C04_mapping_failure_is_undone.
